@@ -450,6 +450,15 @@ func cmdCheck(args []string) int {
 			case "panic":
 				reproduced = strings.HasPrefix(status, "panic:")
 			}
+			if !reproduced && !*noReplay && (strings.HasPrefix(status, "assert: ") || strings.HasPrefix(status, "panic:")) &&
+				!strings.HasPrefix(status, "assert: harness:") {
+				// the real code fails another assertion of the same harness on the solver's input
+				// (a modelled part - hash, key, cipher - behaves more strictly than the model): the
+				// native run is what counts, it is a concrete failing input against the real build
+				fmt.Printf("  note: the encoding predicted %q; the native run of the same input fails %q\n", v.Msg, status)
+				key = v.Harness + ":" + strings.TrimPrefix(status, "assert: ")
+				reproduced = true
+			}
 			if !reproduced {
 				if !*noReplay {
 					fmt.Printf("UNREPRODUCED: property=%s harness=%s msg=%q native=%q replay=%s\n", id, hr.Harness, v.Msg, status, dir)
